@@ -671,6 +671,37 @@ def build(tier, rng):
             refused = o[0] == "exc" and o[3] and not held
             g.check(okay or refused, f"{cls}:inject:{label}", "exported text no longer parses back to exactly the users held", {"class": cls, "probe": label, "call_outcome": repr(o)[:120], "text": repr(text), "users_held": repr(held), "read_back": repr(back)[:200]})
         groups.append(done(g))
+
+        # ---------------- export to another path leaves the bound file's bookkeeping alone ----------------------
+        g = Group("export-to-another-path", "_CommonFile.save(path) / load_if_changed", "htpasswd and htdigest objects bound to a file, autosave off: unsaved edit, save(other path), load_if_changed() -> nothing reloaded, the unsaved edit is still held and the exported file parses back to it; then save() and load_if_changed() -> nothing reloaded; then the bound file is rewritten behind the object's back with an older and a newer mtime -> reloaded")
+        for cls in ("htpasswd", "htdigest"):
+            bound = os.path.join(env.dir, f"bound-{cls}.db")
+            other = os.path.join(env.dir, f"export-{cls}.db")
+            with open(bound, "wb") as fh:
+                fh.write(b"old:realm1:0123456789abcdef0123456789abcdef\n" if cls == "htdigest" else b"old:plainpw\n")
+            f = HtdigestFile(bound, default_realm="realm1") if cls == "htdigest" else HtpasswdFile(bound, default_scheme="plaintext")
+            g.case((cls, "export"))
+            f.set_password("newuser", "pw2")
+            f.save(other)
+            o = outcome(f.load_if_changed)
+            users = sorted(f.users())
+            g.check(o == ("ok", False) and users == ["newuser", "old"], f"{cls}:export:unsaved-edit-lost", "after save(other path) the next load_if_changed() re-read the untouched bound file and dropped the unsaved edit", {"class": cls, "load_if_changed": repr(o), "users": users})
+            g.check(f.check_password("newuser", "pw2") is True, f"{cls}:export:check", "the password set before the export is no longer known", {"class": cls})
+            back = outcome(read_records, open(other, "rb").read(), 3 if cls == "htdigest" else 2)
+            g.check(back[0] == "ok" and sorted(k[0] for k, _ in back[1]) == [b"newuser", b"old"], f"{cls}:export:content", "exported file does not hold the current users", {"class": cls, "read_back": repr(back)[:200]})
+            g.case((cls, "save"))
+            f.save()
+            o = outcome(f.load_if_changed)
+            g.check(o == ("ok", False), f"{cls}:save:reloaded", "load_if_changed() re-reads the file the object has just saved itself", {"class": cls, "outcome": repr(o)})
+            for delta, label in ((-100, "older"), (100, "newer")):
+                g.case((cls, label))
+                with open(bound, "ab") as fh:
+                    fh.write(b"x%d:realm1:0123456789abcdef0123456789abcdef\n" % delta if cls == "htdigest" else b"x%d:pw\n" % delta)
+                t = os.path.getmtime(bound) + delta
+                os.utime(bound, (t, t))
+                o = outcome(f.load_if_changed)
+                g.check(o == ("ok", True) and f"x{delta}" in f.users(), f"{cls}:changed:{label}", "a bound file rewritten behind the object's back is not re-read", {"class": cls, "outcome": repr(o), "users": sorted(f.users())})
+        groups.append(done(g))
     finally:
         env.close()
     host = {"tmpdir_removed": not os.path.exists(env.dir)}
